@@ -193,6 +193,17 @@ PROPS["C03"] = {
     ],
 }
 
+PROPS["C10"] = {
+    "technique": "property-based fault injection over configurations (rapid): generated archives A, B (other epoch), A' (same epoch, other root); every single and pairwise substitution of index files and cross-role swaps, load result compared with an identity-field oracle",
+    "level_text": "Three generated archives are indexed (all five `index all` files + the address index). The configuration of A is loaded with every index role taken from B or A' (singly and in all pairs), with every index file placed in every other role, and with all indexes of A' over A's CAR. NewEpochFromConfig must fail exactly when a substituted file has the wrong kind/format, records another epoch than the configuration, or the root-bearing indexes do not all record the same root; it must succeed otherwise, and epoch/root/kind written at build time must be read back. With a foreign CAR under self-consistent indexes every CID-addressed fetch must fail or return bytes whose hash matches the CID. Exploration level.",
+    "level_note": "slot-to-blocktime carries only the epoch, so a block-time file of A' is undetectable by design and is expected to load. The Filecoin/lassie mode needs the network and is not covered. The inner pubkey index of the gsfa directory is not swapped separately.",
+    "rule": ("rapid draws three epoch specs; per case ~140 configurations are derived deterministically (6 roles x {B, A'} singles, 20 cross-role swaps, 60 pairs, all-A'); non-trivial = case in which at least one configuration must be rejected; distinct by case hash; class_counts reports configurations-tried and foreign-car-cid-fetches"),
+    "assumptions": ["identity oracle derived from the property statement (kind, epoch, root)"],
+    "units": [
+        {"name": "identity", "pkg": ".", "run": "TestVfC10", "checks": T(16, 480), "shards": T(8, 16), "timeout": T(900, 3000), "transforms": GSFA_FASTPOLL, "env": ROOT_ENV},
+    ],
+}
+
 
 # properties not (yet) claimed by a check; kept current by hand
 NOT_APPLICABLE = [
